@@ -317,6 +317,9 @@ func (c *Client) flush(ctx context.Context) error {
 	}
 	n, err := c.writer.Flush()
 	if err != nil {
+		// Part of the data can be already written, so the stream is broken
+		// in the middle of a packet and connection can't be used anymore.
+		_ = c.Close()
 		return err
 	}
 	if ce := c.lg.Check(zap.DebugLevel, "Flush"); ce != nil {
